@@ -18,6 +18,7 @@ import (
 	"github.com/emersion/go-message/textproto"
 	"github.com/emersion/go-smtp"
 	"github.com/foxcpp/maddy/framework/buffer"
+	"github.com/foxcpp/maddy/framework/config"
 	"github.com/foxcpp/maddy/framework/exterrors"
 	"github.com/foxcpp/maddy/framework/module"
 	"github.com/foxcpp/maddy/internal/verifsim/simrt"
@@ -156,6 +157,7 @@ type ScriptedTarget struct {
 	Txs []*TxRecord
 }
 
+func (t *ScriptedTarget) Init(*config.Map) error { return nil }
 func (t *ScriptedTarget) Name() string         { return "scripted" }
 func (t *ScriptedTarget) InstanceName() string { return t.Label }
 func (t *ScriptedTarget) SimLabel() string     { return t.Label }
